@@ -485,7 +485,7 @@ func runBatch(s *script, sg *signal, rec *recorder, res *result) {
 		res.Error = err.Error()
 		return
 	}
-	if err := qb.Start(context.Background(), componenttest.NewNopHost()); err != nil {
+	if err := startC(func(sc context.Context) error { return qb.Start(sc, componenttest.NewNopHost()) }); err != nil {
 		res.Error = err.Error()
 		return
 	}
@@ -770,4 +770,12 @@ func main() {
 	}
 	fmt.Fprintln(os.Stderr, "usage: batcher run <scripts.ndjson> <trace.ndjson> <results.json>")
 	os.Exit(2)
+}
+
+// startC calls a component's Start with a context that is cancelled as soon as Start has returned: component.Component
+// says that context "will be cancelled soon", so nothing that has to outlive Start may depend on it.
+func startC(start func(context.Context) error) error {
+	ctx, cancel := context.WithCancel(context.Background())
+	defer cancel()
+	return start(ctx)
 }
